@@ -12,14 +12,14 @@ import (
 
 func init() {
 	register(&Property{
-		ID:        "C08",
-		Title:     "Entity events: exactly once per committed change, none for undone work",
-		Technique: "static analysis: exactly-once must-pass rules for event firing in Create/Update/DeleteById, final-state reload ordering, who-may-call rule restricting delivery to tx.OnCommit registrations, sibling table over the three listener adapters (change type ↔ predicate ↔ state ↔ sync/async), decision tables of the event-type predicates, Update/Batch agreement on tx-complete registration",
-		LevelText: "Decides on every path: Create and Update fire exactly one parent event and one own event (no loop, after reloading the committed state), DeleteById fires one event per collected change flow; events are delivered only through functions registered with bbolt Tx.OnCommit (so nothing is delivered for a transaction that does not commit); the parent flow exists only for child stores and is marked as parent event; each adapter invokes its listener once per matching (change type, predicate) with the final state for create/update and the initial state for delete, synchronously or via `go` exactly as the event type says; Update and Batch both register the tx-complete listeners with OnCommit. Delivery counts on real histories and asynchronous ordering are not decided.",
-		LevelNote: "Trusted: go/types, x/tools SSA, bbolt OnCommit semantics (hooks run only after a successful commit).",
-		DesignRef: "DESIGN.md C08",
+		ID:          "C08",
+		Title:       "Entity events: exactly once per committed change, none for undone work",
+		Technique:   "static analysis: exactly-once must-pass rules for event firing in Create/Update/DeleteById, final-state reload ordering, who-may-call rule restricting delivery to tx.OnCommit registrations, sibling table over the three listener adapters (change type ↔ predicate ↔ state ↔ sync/async), decision tables of the event-type predicates, Update/Batch agreement on tx-complete registration",
+		LevelText:   "Decides on every path: Create and Update fire exactly one parent event and one own event (no loop, after reloading the committed state), DeleteById fires one event per collected change flow; events are delivered only through functions registered with bbolt Tx.OnCommit (so nothing is delivered for a transaction that does not commit); the parent flow exists only for child stores and is marked as parent event; each adapter invokes its listener once per matching (change type, predicate) with the final state for create/update and the initial state for delete, synchronously or via `go` exactly as the event type says; Update and Batch both register the tx-complete listeners with OnCommit. Delivery counts on real histories and asynchronous ordering are not decided.",
+		LevelNote:   "Trusted: go/types, x/tools SSA, bbolt OnCommit semantics (hooks run only after a successful commit).",
+		DesignRef:   "DESIGN.md C08",
 		Explanation: "Sites: BaseStore.Create/Update/DeleteById/fireParentEvent, EntityChangeState.fireEvents/initFromChild/loadFinalState, the three *ListenerAdapter.ProcessPostCommit, EntityEventType predicates, DbImpl.Update/Batch closures.",
-		Trusted:   []string{"go/types", "golang.org/x/tools/go/ssa v0.29.0", "bbolt Tx.OnCommit"},
+		Trusted:     []string{"go/types", "golang.org/x/tools/go/ssa v0.29.0", "bbolt Tx.OnCommit"},
 		Rules: func(c *Ctx) {
 			ruleC08Once(c)
 			rulePostCommit(c, "C08.COMMITONLY")
@@ -27,56 +27,62 @@ func init() {
 			ruleC08Parent(c)
 			ruleC08Adapters(c)
 			ruleC08TxComplete(c)
+			ruleC08Actions(c)
+			ruleC08OwnFilter(c)
 		},
 	})
 	register(&Property{
-		ID:        "C15",
-		Title:     "Parent and child (extension) stores stay consistent",
-		Technique: "static analysis: per-iteration path rule for the child-store filter in every id scan, routing order rule in Update/DeleteById, forwarding table for the parent persist/indexing contexts, wrapper-normalisation rule for extended stores, path-construction rule for nested child data",
-		LevelText: "Decides on every path: each scan loop skips ids that lack child data (unless the store is extended) before evaluating the filter; extended stores wrap id iteration in the valid-ids cursor and normalise its initial position; loads return nothing for a plain parent entity through a non-extended child and the parent data through an extended one; Update tries the child-store handlers (forwarding the same field checker) before its own persist; the parent indexing context is created iff a parent exists and shares the error holder; the parent persist context forwards id, mutate context, field checker and create flag and shares the child's error holder; child data is nested below the parent's entity bucket. Query results on mixed populations are not decided.",
-		LevelNote: "Trusted: go/types, x/tools SSA; user-supplied Mapper/EntityStrategy behaviour.",
-		DesignRef: "DESIGN.md C15",
+		ID:          "C15",
+		Title:       "Parent and child (extension) stores stay consistent",
+		Technique:   "static analysis: per-iteration path rule for the child-store filter in every id scan, routing order rule in Update/DeleteById, forwarding table for the parent persist/indexing contexts, wrapper-normalisation rule for extended stores, path-construction rule for nested child data",
+		LevelText:   "Decides on every path: each scan loop skips ids that lack child data (unless the store is extended) before evaluating the filter; extended stores wrap id iteration in the valid-ids cursor and normalise its initial position; loads return nothing for a plain parent entity through a non-extended child and the parent data through an extended one; Update tries the child-store handlers (forwarding the same field checker) before its own persist; the parent indexing context is created iff a parent exists and shares the error holder; the parent persist context forwards id, mutate context, field checker and create flag and shares the child's error holder; child data is nested below the parent's entity bucket. Query results on mixed populations are not decided.",
+		LevelNote:   "Trusted: go/types, x/tools SSA; user-supplied Mapper/EntityStrategy behaviour.",
+		DesignRef:   "DESIGN.md C15",
 		Explanation: "Sites: uniqueIndexScanner.Next/nextUnpaged, sortingScanner.ScanCursor, BaseStore.IterateValidIds/getEntityBucketForLoad/Update/newIndexingContext, ChildStoreUpdateHandler.HandleUpdate, PersistContext.GetParentContext, NewBaseStore, GetEntityBucket.",
-		Trusted:   []string{"go/types", "golang.org/x/tools/go/ssa v0.29.0"},
+		Trusted:     []string{"go/types", "golang.org/x/tools/go/ssa v0.29.0"},
 		Rules: func(c *Ctx) {
 			ruleC15ScanFilter(c)
 			ruleC15Valid(c)
 			ruleC15Route(c)
+			ruleC15DeleteWhere(c)
 			ruleC15Chain(c)
 			ruleChildPaths(c, "C15.PATHS")
 			ruleDeleteOrch(c, "C15.DELETE")
 		},
 	})
 	register(&Property{
-		ID:        "C16",
-		Title:     "System entities can only be changed from a system context",
-		Technique: "static analysis: who-may-write rule for the system flag (written only on the create edge), hook-placement rule (update check before the persist, create check after it, delete check unconditional), complete decision table of checkOperation, constant-result rule for the two context kinds",
-		LevelText: "Decides on every path: the system flag field is written only by code reachable exclusively through the is-create edge of SetBaseValues; the constraint checks an update in ProcessBeforeUpdate (i.e. against the stored flag, before anything is persisted), a create in ProcessAfterUpdate and a delete unconditionally, recording the refusal in the error holder; checkOperation refuses exactly when the flag is set and the context is not a system context (8-row table); ordinary contexts answer IsSystemContext=false and system contexts true, and wrapping is idempotent. Registration of the constraint by user stores and the state after a refused operation (C07) are not decided here.",
-		LevelNote: "Trusted: go/types, x/tools SSA, DECIDE interpreter.",
-		DesignRef: "DESIGN.md C16",
+		ID:          "C16",
+		Title:       "System entities can only be changed from a system context",
+		Technique:   "static analysis: who-may-write rule for the system flag (written only on the create edge), hook-placement rule (update check before the persist, create check after it, delete check unconditional), complete decision table of checkOperation, constant-result rule for the two context kinds",
+		LevelText:   "Decides on every path: the system flag field is written only by code reachable exclusively through the is-create edge of SetBaseValues; the constraint checks an update in ProcessBeforeUpdate (i.e. against the stored flag, before anything is persisted), a create in ProcessAfterUpdate and a delete unconditionally, recording the refusal in the error holder; checkOperation refuses exactly when the flag is set and the context is not a system context (8-row table); ordinary contexts answer IsSystemContext=false and system contexts true, and wrapping is idempotent. Registration of the constraint by user stores and the state after a refused operation (C07) are not decided here.",
+		LevelNote:   "Trusted: go/types, x/tools SSA, DECIDE interpreter.",
+		DesignRef:   "DESIGN.md C16",
 		Explanation: "Sites: every setter call whose field-name argument is FieldIsSystemEntity; systemEntityConstraint methods; mutateContext/systemMutateContext.IsSystemContext; NewSystemMutateContext.",
-		Trusted:   []string{"go/types", "golang.org/x/tools/go/ssa v0.29.0"},
+		Trusted:     []string{"go/types", "golang.org/x/tools/go/ssa v0.29.0"},
 		Rules: func(c *Ctx) {
 			ruleC16WriteOnce(c)
 			ruleC16Hooks(c)
 			ruleC16Decide(c)
 			ruleC16Context(c)
+			ruleC16NoEscalate(c)
+			ruleProceedTable(c, "C16.PROCEED")
 		},
 	})
 	register(&Property{
-		ID:        "C17",
-		Title:     "Snapshot and restore reproduce the database exactly",
-		Technique: "static analysis: lockset rule (every bolt transaction entry under the reload read-lock, the file swap under the write lock), must-pass sequence Close<Rename<Rename<Open on every return of the restore, same-transaction read-decide-write rule for the timeline id, decision table of the timeline mode, copy-inside-read-transaction rule",
-		LevelText: "Decides necessary conditions on every path: all bbolt transaction entries of DbImpl run with reloadLock read-held and the restore's close/rename/rename/open sequence runs with it write-held, on every returning path of the restore (no shortcut around the swap); snapshots are copied from inside a read transaction and marked (snapshot id + reset flag) in one transaction whose error is returned; the timeline id is read, decided and rewritten inside one write transaction (so concurrent callers cannot both reset) and forceResetTimeline has the documented truth table; restore listeners start only after the new database is open. Content equality after restore and mixture-freedom of concurrent transactions depend on bbolt and the file system and are not decided.",
-		LevelNote: "Trusted: go/types, x/tools SSA, sync.RWMutex, bbolt, os.Rename atomicity.",
-		DesignRef: "DESIGN.md C17",
+		ID:          "C17",
+		Title:       "Snapshot and restore reproduce the database exactly",
+		Technique:   "static analysis: lockset rule (every bolt transaction entry under the reload read-lock, the file swap under the write lock), must-pass sequence Close<Rename<Rename<Open on every return of the restore, same-transaction read-decide-write rule for the timeline id, decision table of the timeline mode, copy-inside-read-transaction rule",
+		LevelText:   "Decides necessary conditions on every path: all bbolt transaction entries of DbImpl run with reloadLock read-held and the restore's close/rename/rename/open sequence runs with it write-held, on every returning path of the restore (no shortcut around the swap); snapshots are copied from inside a read transaction and marked (snapshot id + reset flag) in one transaction whose error is returned; the timeline id is read, decided and rewritten inside one write transaction (so concurrent callers cannot both reset) and forceResetTimeline has the documented truth table; restore listeners start only after the new database is open. Content equality after restore and mixture-freedom of concurrent transactions depend on bbolt and the file system and are not decided.",
+		LevelNote:   "Trusted: go/types, x/tools SSA, sync.RWMutex, bbolt, os.Rename atomicity.",
+		DesignRef:   "DESIGN.md C17",
 		Explanation: "Sites: every method of DbImpl; the closures of Snapshot, MarkAsSnapshot, GetTimelineId; TimelineMode.forceResetTimeline.",
-		Trusted:   []string{"go/types", "golang.org/x/tools/go/ssa v0.29.0", "sync.RWMutex", "bbolt"},
+		Trusted:     []string{"go/types", "golang.org/x/tools/go/ssa v0.29.0", "sync.RWMutex", "bbolt"},
 		Rules: func(c *Ctx) {
 			ruleC17Lock(c)
 			ruleC17Restore(c)
 			ruleC17Snapshot(c)
 			ruleC17Timeline(c)
+			ruleC17NoCache(c)
 		},
 	})
 }
@@ -1047,7 +1053,9 @@ func ruleC17Lock(c *Ctx) {
 	}
 }
 
-func ruleC17Restore(c *Ctx) {
+func ruleC17Restore(c *Ctx) { ruleRestoreSwap(c, "C17.RESTORE") }
+
+func ruleRestoreSwap(c *Ctx, rule string) {
 	p := c.P
 	fn := p.SSAFunc(p.Method("boltz", "DbImpl", "RestoreFromReader"))
 	name := FnName(fn)
@@ -1102,7 +1110,7 @@ func ruleC17Restore(c *Ctx) {
 		// the second rename moves the snapshot onto the database path
 		_ = seq
 	}
-	c.Check(ok, "C17.RESTORE", name, p.Pos(fn.Pos()), "close < rename(db→previous) < rename(snapshot→db) < open, under the write lock, on every returning path", why)
+	c.Check(ok, rule, name, p.Pos(fn.Pos()), "close < rename(db→previous) < rename(snapshot→db) < open, under the write lock, on every returning path", why)
 	// listeners start after Open
 	okL := true
 	nGo := 0
@@ -1117,8 +1125,8 @@ func ruleC17Restore(c *Ctx) {
 			}
 		}
 	}
-	c.Check(okL && nGo >= 1, "C17.RESTORE", name+": listeners", p.Pos(fn.Pos()), "restore listeners are started only after the new database is open", "restore listeners can fire before the new database is open (or never)")
-	c.Floor("C17.RESTORE", 2)
+	c.Check(okL && nGo >= 1, rule, name+": listeners", p.Pos(fn.Pos()), "restore listeners are started only after the new database is open", "restore listeners can fire before the new database is open (or never)")
+	c.Floor(rule, 2)
 }
 
 func ruleC17Snapshot(c *Ctx) {
@@ -1321,4 +1329,197 @@ func ruleC17Timeline(c *Ctx) {
 	}
 	c.Check(okT, "C17.TIMELINE", FnName(fr), p.Pos(fr.Pos()), "force-reset always, init-if-empty only without an id, default never (6 rows)", whyT)
 	c.Floor("C17.TIMELINE", 3)
+}
+
+// ruleC17NoCache: GetSnapshotId answers from the database on every call; nothing reachable from it
+// (or from the restore) keeps database-derived state in DbImpl fields, where a concurrent restore
+// could leave it stale.
+func ruleC17NoCache(c *Ctx) {
+	p := c.P
+	fn := p.SSAFunc(p.Method("boltz", "DbImpl", "GetSnapshotId"))
+	name := FnName(fn)
+	c.Analysed(name)
+	view := p.Method("boltz", "DbImpl", "View")
+	fi := ComputeFacts(fn)
+	ri := reachWithout(fn, func(in ssa.Instruction) bool { return isCallTo(in, view) })
+	ok := true
+	for _, r := range returnsOf(fn) {
+		if ri.Reaches(r) && classifyErr(fi, r.Block(), r.Results[1], 0) != errNonNil {
+			ok = false
+		}
+	}
+	c.Check(ok, "C17.NOCACHE", name, p.Pos(fn.Pos()), "every answer is read from the database inside a read transaction", "a snapshot id can be answered without reading the database (cached value): after a restore the reported id may be stale")
+	// DbImpl fields are written only by Open and the listener registrations
+	dbImpl := p.Named("boltz", "DbImpl")
+	allowed := map[string]bool{"Open": true, "AddTxCompleteListener": true, "AddRestoreListener": true}
+	mutators := map[string]bool{"Store": true, "Swap": true, "CompareAndSwap": true, "Put": true, "Append": true, "Delete": true, "Clear": true}
+	for i := 0; i < dbImpl.NumMethods(); i++ {
+		m := p.SSA.FuncValue(dbImpl.Method(i))
+		if m == nil || m.Blocks == nil || allowed[m.Name()] {
+			continue
+		}
+		bad := ""
+		for _, f := range allFuncsWithAnon(m) {
+			for _, b := range f.Blocks {
+				for _, in := range b.Instrs {
+					switch x := in.(type) {
+					case *ssa.Store:
+						if _, base := fieldOfAddr(x.Addr); base != nil && namedOf(base.Type()) == dbImpl {
+							bad = "store at " + p.Pos(x.Pos())
+						}
+					case ssa.CallInstruction:
+						cal, _ := calleeOf(x.Common())
+						if cal != nil && !x.Common().IsInvoke() && len(x.Common().Args) > 0 && mutators[cal.Name()] {
+							if fa, isFA := x.Common().Args[0].(*ssa.FieldAddr); isFA && namedOf(fa.X.Type()) == dbImpl {
+								bad = "call " + cal.Name() + " at " + p.Pos(x.Pos())
+							}
+						}
+					}
+				}
+			}
+		}
+		c.Check(bad == "", "C17.NOCACHE", FnName(m)+": no DbImpl state", p.Pos(m.Pos()), "does not write any DbImpl field", "writes a DbImpl field ("+bad+"): database-derived state kept outside the database is not swapped by a restore")
+	}
+}
+
+// ruleC08Actions: the commit-action and pre-commit-action lists are only ever appended to by their
+// Add methods; nothing else rewrites or clears them (the commit hook reads them asynchronously).
+func ruleC08Actions(c *Ctx) {
+	p := c.P
+	for _, w := range []struct{ fld, adder string }{{"commitActions", "AddCommitAction"}, {"preCommitActions", "AddPreCommitAction"}} {
+		fld := p.Field("boltz", "mutateContext", w.fld)
+		n := 0
+		for _, fn := range c.prodFuncs("boltz") {
+			for _, b := range fn.Blocks {
+				for _, in := range b.Instrs {
+					st, ok := in.(*ssa.Store)
+					if !ok {
+						continue
+					}
+					if f, _ := fieldOfAddr(st.Addr); !sameVar(f, fld) {
+						continue
+					}
+					n++
+					okW := fn.Name() == w.adder
+					if okW {
+						// the new value is append(old, x)
+						call, isCall := st.Val.(*ssa.Call)
+						okW = false
+						if isCall {
+							if bi, isB := call.Call.Value.(*ssa.Builtin); isB && bi.Name() == "append" {
+								if f2, _ := loadedField(call.Call.Args[0]); sameVar(f2, fld) {
+									okW = true
+								}
+							}
+						}
+					}
+					c.Check(okW, "C08.ACTIONS", FnName(fn)+": writes "+w.fld, p.Pos(st.Pos()), "only "+w.adder+" extends the list by appending", "the list of "+w.fld+" is rewritten outside "+w.adder+" (the commit hook may still be reading it, and queued work of a committed transaction is lost)")
+				}
+			}
+		}
+		if n == 0 {
+			c.Bad("C08.ACTIONS", "boltz.mutateContext."+w.fld, "-", "no writer found")
+		}
+	}
+}
+
+// ruleC08OwnFilter: every listener registration stores its OWN change-type list (a fresh slice),
+// never the caller's variadic slice extended in place.
+func ruleC08OwnFilter(c *Ctx) {
+	p := c.P
+	for _, m := range []string{"AddEntityEventListener", "AddEntityEventListenerF", "AddListener", "AddEntityIdListener"} {
+		fn := p.SSAFunc(p.Method("boltz", "BaseStore", m))
+		name := FnName(fn)
+		c.Analysed(name)
+		ok, n := true, 0
+		for _, b := range fn.Blocks {
+			for _, in := range b.Instrs {
+				st, isSt := in.(*ssa.Store)
+				if !isSt {
+					continue
+				}
+				f, _ := fieldOfAddr(st.Addr)
+				if f == nil || f.Name() != "changeTypes" {
+					continue
+				}
+				n++
+				call, isCall := st.Val.(*ssa.Call)
+				fresh := false
+				if isCall {
+					if bi, isB := call.Call.Value.(*ssa.Builtin); isB && bi.Name() == "append" {
+						if sl, isSl := call.Call.Args[0].(*ssa.Slice); isSl {
+							if _, isAlloc := sl.X.(*ssa.Alloc); isAlloc {
+								fresh = true
+							}
+						}
+					}
+				}
+				if !fresh {
+					ok = false
+				}
+			}
+		}
+		c.Check(ok && n > 0, "C08.OWNFILTER", name, p.Pos(fn.Pos()), "the adapter's change-type list is built by appending to a fresh slice", "the adapter keeps the caller's variadic slice (appended in place): two registrations sharing one slice overwrite each other's filter")
+	}
+}
+
+// ruleC15DeleteWhere: DeleteWhere evaluates the filter on the store it was called on (so a child
+// store only sees entities with child data) and deletes id by id through the store implementation.
+func ruleC15DeleteWhere(c *Ctx) {
+	p := c.P
+	fn := p.SSAFunc(p.Method("boltz", "BaseStore", "DeleteWhere"))
+	name := FnName(fn)
+	c.Analysed(name)
+	var q, d ssa.CallInstruction
+	delegated := false
+	for _, call := range callsIn(fn) {
+		if cal, _ := calleeOf(call.Common()); cal != nil && cal.Name() == "QueryIds" && !call.Common().IsInvoke() && call.Common().Args[0] == ssa.Value(fn.Params[0]) {
+			q = call
+		}
+		if invokeNamed(call, "DeleteById") {
+			d = call
+		}
+		if invokeNamed(call, "DeleteWhere") {
+			delegated = true
+		}
+	}
+	ok := q != nil && d != nil && !delegated
+	if ok {
+		ri := reachWithout(fn, func(in ssa.Instruction) bool { return in == ssa.Instruction(q) })
+		if ri.Reaches(d) {
+			ok = false
+		}
+	}
+	c.Check(ok, "C15.ROUTE", name, p.Pos(fn.Pos()), "the filter is evaluated by this store's own query (child-only filtering applies) before ids are deleted one by one", "DeleteWhere does not evaluate the filter on the store it was called on (e.g. delegates the whole call to the parent): plain parent entities matching the filter would be deleted through the child store")
+}
+
+// ruleC16NoEscalate: library code never manufactures a system context on its own.
+func ruleC16NoEscalate(c *Ctx) {
+	p := c.P
+	n := 0
+	for _, fn := range c.prodFuncs("boltz") {
+		for _, call := range callsIn(fn) {
+			cal, _ := calleeOf(call.Common())
+			if cal == nil || (cal.Name() != "GetSystemContext" && cal.Name() != "NewSystemMutateContext") {
+				continue
+			}
+			// allowed: the context types' own GetSystemContext implementations
+			recv := namedOf(recvTypeOfFn(fn))
+			if recv != nil && (recv.Obj().Name() == "mutateContext" || recv.Obj().Name() == "systemMutateContext") && fn.Name() == "GetSystemContext" {
+				continue
+			}
+			n++
+			c.Bad("C16.NOESCALATE", FnName(fn)+" -> "+cal.Name(), p.Pos(call.Pos()), "library code switches to a system context by itself: an operation started from an ordinary context (e.g. a cascading delete) can then change or delete system entities")
+		}
+	}
+	if n == 0 {
+		c.OK("C16.NOESCALATE", "boltz", "-", "no library function other than the context types' own GetSystemContext obtains a system context")
+	}
+}
+
+func recvTypeOfFn(fn *ssa.Function) types.Type {
+	if fn.Signature.Recv() != nil {
+		return fn.Signature.Recv().Type()
+	}
+	return types.Typ[types.Invalid]
 }
